@@ -73,6 +73,22 @@ def r1(run):
             origins.append(x)
         has_ctx = any(y[0] == "field" and y[2] == "context_id" for o in origins for y in walk(o))
         id_as_ctx = any(y[0] == "field" and y[2] == "id" for o in origins for y in walk(o)) and not has_ctx
+        # a two-level registry `HashMap<Scru128Id, HashMap<String, V>>` keys by (context, name) as well: the outer level by the
+        # frame's context id, the inner level - reached only through an outer lookup keyed by a context id - by the name
+        nested_ok = False
+        if not is_tuple_key:
+            if kty == SCRU and "std::collections::hash::map::HashMap<alloc::string::String" in vty:
+                nested_ok = has_ctx and not id_as_ctx
+            elif kty == "alloc::string::String":
+                for y in walk(c.arg(0)):
+                    if y[0] == "call" and y[1].fn.startswith("std::collections::hash::map::HashMap::<K, V, S, A>::") and y[1].ga:
+                        oa = [a for a in y[1].ga if isinstance(a, int)]
+                        if oa and b.types.s(oa[0]) == SCRU and len(y[2]) > 1 and any(z[0] == "field" and z[2] == "context_id" for o2 in q.origins(y[2][1]) for z in walk(o2)):
+                            nested_ok = True
+        if nested_ok:
+            run.ob("%s|%s<%s>|key" % (fn, m, vty.split("::")[-1]), True, c.sp,
+                   "registry %s in %s is one level of a (context -> name -> value) map: key type %s" % (m, fn, kty[:80]), reason="registry-keyed-by-name-only")
+            continue
         run.ob("%s|%s<%s>|key" % (fn, m, vty.split("::")[-1]), is_tuple_key and has_ctx and not id_as_ctx, c.sp,
                "registry %s in %s is keyed by (context_id, name): key type %s, key = %s" % (m, fn, kty[:80], fmt(strip(key))[:110]),
                reason="registry-keyed-by-name-only")
@@ -272,13 +288,28 @@ def r3(run):
                 cb = run.facts.body(clo[1].get("def")) if clo[0] == "agg" and clo[1].get("def") else None
                 rets = cb.return_defs() if cb is not None else []
                 inner = q.comparison(rets[0][1]) if len(rets) == 1 else None
+                from .store_shared import subst_env
+                if not inner and len(rets) == 1:
+                    # the closure hands its arguments to a crate-local bool helper (`is_handler_id(register_frame, handler_id)`)
+                    r0 = strip(rets[0][1])
+                    hb_ = run.facts.body(r0[1].fn) if r0[0] == "call" and r0[1].local else None
+                    hr = hb_.return_defs() if hb_ is not None and not hb_.is_coroutine else []
+                    hin = q.comparison(hr[0][1]) if len(hr) == 1 else None
+                    if hin and hin[0] == "eq":
+                        inner = ("eq", q.subst_args(hin[1], r0[2]), q.subst_args(hin[2], r0[2]))
                 if inner and inner[0] == "eq":
-                    from .store_shared import subst_env
                     cmp_ = ("eq", subst_env(run, cb, inner[1]), subst_env(run, cb, inner[2]))
         if cmp_ and cmp_[0] in ("eq", "ne"):
             a, b2 = cmp_[1], cmp_[2]
-            if any(q.last_field(x) == "handler_id" for x in (a, b2)):
-                other = b2 if q.last_field(a) == "handler_id" else a
+            def stored_id(x):
+                """the retained registration's own handler id: its `handler_id` field, or - when the retained value is the
+                `.register` frame itself - that frame's `id` (as text)"""
+                if q.last_field(x) == "handler_id":
+                    return True
+                return any(y[0] == "field" and y[2] == "id" for y in walk(x)) and any(y[0] == "call" and y[1].fn.startswith("std::collections::hash::map::HashMap") for y in walk(x)) \
+                    and not any(y[0] == "call" and y[1].fn.endswith("Value::get") for y in walk(x))
+            if any(stored_id(x) for x in (a, b2)):
+                other = b2 if stored_id(a) else a
                 from_meta = "handler_id" in q.const_strs(other) or any(y[0] == "agg" and y[1].get("agg") == "closure" for y in walk(other))
                 if from_meta or any(y[0] == "call" and y[1].fn.endswith("Value::get") for y in walk(other)):
                     eq_edges += q.edge_triples(sv, bb, lambda m, rel=cmp_[0]: m is (rel == "eq"))
@@ -288,7 +319,7 @@ def r3(run):
     unreg_edges = []
     for bb, si in sv.switches():
         pass
-    sorts = [c for c in sv.calls() if c.bb in sv.live_blocks() and "sort_by_key" in c.fn]
+    sorts = [c for c in sv.calls() if c.bb in sv.live_blocks() and c.fn.split("::")[-1] in ("sort_by_key", "sort_unstable_by_key", "sort_by_cached_key")]
     run.exact("sort_by_key on the survivors", len(sorts), 1, sv.sp)
     for c in sorts:
         clo = strip(c.arg(1))
@@ -298,6 +329,14 @@ def r3(run):
             run.touch(cb)
             for (bb, e, raw) in cb.return_defs():
                 if q.last_field(e) == "id" and any(y[0] == "field" and y[2] == "register_frame" for y in walk(e)):
+                    ok = True
+                # the survivors are the `.register` frames themselves: ordered by the element's own id
+                base = strip(q.field_base(e) or ("none",))
+                n_ = 0
+                while base[0] in ("ref", "deref") and n_ < 4:
+                    base = base[1]
+                    n_ += 1
+                if q.last_field(e) == "id" and base[0] == "arg" and C.FRAME in cb.local_tystr(base[1]):
                     ok = True
         run.ob("xs::handlers::serve::serve|restart-in-id-order", ok, c.sp, "surviving registrations are restarted ordered by their register frame id", reason="restart-order")
         starts = [s for s in sv.calls() if s.fn.endswith("start_handler") and s.bb in sv.live_blocks() and any(y[0] == "field" and y[2] == "register_frame" for a in s.arg_exprs() for y in walk(a))]
